@@ -34,7 +34,14 @@ def fbits(x, single=False):
 
 class Opts:
     def __init__(self, wire=False, role=None, real32_single=True,
-                 ignore_host=False, strict_scopes=False):
+                 ignore_host=False, strict_scopes=False,
+                 char16_as_str=False):
+        # char16_as_str: a char16 value whose CIM type is carried by the
+        # enclosing property/parameter may be a str or a Char16 (both are
+        # documented representations); keybinding values stay distinct,
+        # because there the python type is the only carrier of the CIM type
+        self.char16_as_str = char16_as_str
+        self.in_key = False
         self.wire = wire
         self.role = role
         self.real32_single = real32_single
@@ -74,6 +81,8 @@ def _fp(x, o):
     if isinstance(x, float):
         return ('float', fbits(x))
     if isinstance(x, Char16):
+        if o.char16_as_str and not o.in_key:
+            return ('str', str(x))
         return ('Char16', str(x))
     if isinstance(x, str):
         return ('str', x)
@@ -87,7 +96,12 @@ def _fp(x, o):
     if isinstance(x, (list, tuple)):
         return ('list', tuple(_fp(i, o) for i in x))
     if isinstance(x, CIMInstanceName):
-        return ('CIMInstanceName', x.classname, _fpdict(x.keybindings, o),
+        was, o.in_key = o.in_key, True
+        try:
+            keys = _fpdict(x.keybindings, o)
+        finally:
+            o.in_key = was
+        return ('CIMInstanceName', x.classname, keys,
                 None if o.ignore_host else x.host, x.namespace)
     if isinstance(x, CIMClassName):
         return ('CIMClassName', x.classname,
